@@ -518,6 +518,10 @@ def main(args):
     t0 = time.time()
     hs_h, hs_o = (0, 4242)
     with Farm(hashseed=hs_h, preload=["checks.c03_history"]) as farm_h, Farm(hashseed=hs_o, preload=["checks.c03_history"]) as farm_o:
+        from simkit import seamprobe
+
+        if not seamprobe.guard(farm_h, rep):
+            return rep.finish({"evaluations": 0, "distinct_nontrivial": 0, "rule": RULE, "samples": []}, ASSUMPTIONS)
         st, pools = farm_o.call("checks.c03_history:build_pools", {}, 300)
         if st != "ok":
             rep.harness_error("pool builder: %s %s" % (st, str(pools)[-300:]))
